@@ -1,6 +1,8 @@
 // C09 harness: drives the eight loser tree classes of tlx/container/loser_tree.hpp through the caller
 // protocol of the model (coq/C09/LoserTree.v, [drive]) and prints the sequence of min_source() values.
-// Case line:  <P|C><G|U><S|N> <sentinel> <seq> <seq> ...   with <seq> = "-" (empty) or "k,k,k".
+// Case line:  <P|C><G|U|V><S|N> <sentinel> <seq> <seq> ...   with <seq> = "-" (empty) or "k,k,k".
+// V = unguarded class driven the way multiway_merge_loser_tree_combined does: keys may exceed the sentinel, the tree is
+// consulted only while some current key beats the sentinel (coq/C09/Spec.v, [drive_g]).
 // Output: one line per case, sources separated by blanks, invalid_ printed as "-".
 #include <tlx/container/loser_tree.hpp>
 
@@ -53,6 +55,40 @@ static void drive(LT& lt, const Seqs& seqs, bool guarded, std::string& out) {
     }
 }
 
+// unguarded tree, arbitrary keys: stop as soon as no current key beats the sentinel
+template <typename LT>
+static void drive_general(LT& lt, const Seqs& seqs, const Key& sentinel, bool stable, std::string& out) {
+    using Source = typename LT::Source;
+    const Source k = static_cast<Source>(seqs.size());
+    KeyLess less;
+    std::vector<size_t> pos(k, 0);
+    for (Source i = 0; i < k; ++i) lt.insert_start(&seqs[i][0], i, false);
+    lt.init();
+    for (;;) {
+        bool any = false;
+        for (Source i = 0; i < k; ++i) {
+            if (pos[i] >= seqs[i].size()) continue;
+            const Key& h = seqs[i][pos[i]];
+            if (stable ? !less(sentinel, h) : less(h, sentinel)) any = true;
+        }
+        if (!any) break;
+        Source s = lt.min_source();
+        if (!out.empty()) out += ' ';
+        if (s == LT::invalid_) out += '-'; else out += std::to_string(s);
+        if (s >= k || pos[s] >= seqs[s].size()) break;
+        ++pos[s];
+        if (pos[s] < seqs[s].size())
+            lt.delete_min_insert(&seqs[s][pos[s]], false);
+        else
+            break;
+    }
+}
+template <typename LT>
+static void run_general(const Seqs& seqs, const Key& sentinel, bool stable, std::string& out) {
+    LT lt(static_cast<typename LT::Source>(seqs.size()), sentinel, KeyLess());
+    drive_general(lt, seqs, sentinel, stable, out);
+}
+
 template <typename LT>
 static void run_guarded(const Seqs& seqs, std::string& out) {
     LT lt(static_cast<typename LT::Source>(seqs.size()), KeyLess());
@@ -88,7 +124,16 @@ int main(int argc, char** argv) {
         std::string out;
         const bool P = vs[0] == 'P', G = vs[1] == 'G', S = vs[2] == 'S';
         if (seqs.empty()) { std::cout << "?" << std::endl; continue; }
-        if (G) {
+        const bool V = vs[1] == 'V';
+        if (V) {
+            bool ok = true;
+            for (const auto& q : seqs) if (q.empty()) ok = false;
+            if (!ok) { std::cout << "?" << std::endl; continue; }
+            if (P && S) run_general<tlx::LoserTreePointerUnguarded<true, Key, KeyLess> >(seqs, sentinel, true, out);
+            else if (P) run_general<tlx::LoserTreePointerUnguarded<false, Key, KeyLess> >(seqs, sentinel, false, out);
+            else if (S) run_general<tlx::LoserTreeCopyUnguarded<true, Key, KeyLess> >(seqs, sentinel, true, out);
+            else run_general<tlx::LoserTreeCopyUnguarded<false, Key, KeyLess> >(seqs, sentinel, false, out);
+        } else if (G) {
             if (P && S) run_guarded<tlx::LoserTreePointer<true, Key, KeyLess> >(seqs, out);
             else if (P) run_guarded<tlx::LoserTreePointer<false, Key, KeyLess> >(seqs, out);
             else if (S) run_guarded<tlx::LoserTreeCopy<true, Key, KeyLess> >(seqs, out);
